@@ -535,7 +535,7 @@ type HOp struct {
 }
 type HistEv struct {
 	Op    string          `json:"op"` // TraceReset | HNew | HGrow | HAdopt
-	Kind  string          `json:"kind"`
+	HKind string          `json:"hkind"`
 	Val   json.RawMessage `json:"val"`
 	Level string          `json:"level"`
 	S     int             `json:"s"`
@@ -550,7 +550,7 @@ var nullJSON = json.RawMessage("[]")
 const histPti, histIei = 9, 77
 
 func (s *sess) history(kind string, val json.RawMessage, ops []HOp) {
-	s.w.Emit(HistEv{Op: "TraceReset", Kind: kind, Val: nullJSON, Item: nullJSON})
+	s.w.Emit(HistEv{Op: "TraceReset", HKind: kind, Val: nullJSON, Item: nullJSON})
 	st := St{Pti: histPti, Iei: histIei, Subs: []SubS{}, Srs: []SubResS{}, Cm: []int{}}
 	full := st
 	if kind == "list" {
@@ -567,7 +567,7 @@ func (s *sess) history(kind string, val json.RawMessage, ops []HOp) {
 	normSt(&full)
 	var L *live
 	pi, hang := guarded(func() { L = newLive(full) })
-	s.w.Emit(HistEv{Op: "HNew", Kind: kind, Val: val, Item: nullJSON, Ok: pi == nil && !hang && !L.perr, Obs: obs(pi, hang)})
+	s.w.Emit(HistEv{Op: "HNew", HKind: kind, Val: val, Item: nullJSON, Ok: pi == nil && !hang && !L.perr, Obs: obs(pi, hang)})
 	if pi != nil || hang {
 		return
 	}
@@ -601,7 +601,7 @@ func (s *sess) history(kind string, val json.RawMessage, ops []HOp) {
 				}
 				L, ok = N, true
 			})
-			s.w.Emit(HistEv{Op: "HAdopt", Kind: kind, Val: nullJSON, Item: nullJSON, Ok: ok, Obs: obs(pi, hang)})
+			s.w.Emit(HistEv{Op: "HAdopt", HKind: kind, Val: nullJSON, Item: nullJSON, Ok: ok, Obs: obs(pi, hang)})
 			if !ok {
 				return
 			}
@@ -660,7 +660,7 @@ func (s *sess) history(kind string, val json.RawMessage, ops []HOp) {
 			if !ok && pi == nil && !hang {
 				ev.Fatal("history: growth step %+v cannot be applied", o)
 			}
-			s.w.Emit(HistEv{Op: "HGrow", Kind: kind, Val: nullJSON, Level: o.Level, S: o.S, I: o.I, Item: o.Item, Ok: ok, Obs: obs(pi, hang)})
+			s.w.Emit(HistEv{Op: "HGrow", HKind: kind, Val: nullJSON, Level: o.Level, S: o.S, I: o.I, Item: o.Item, Ok: ok, Obs: obs(pi, hang)})
 			if !ok {
 				return
 			}
@@ -914,6 +914,104 @@ func record(out string) {
 		}
 		if enc := s.build(st); len(enc) > 0 && len(enc) < 200 {
 			encs = append(encs, enc)
+		}
+	}
+	// histories on one live object: encode, append fresh items, encode again; adopt decoded octets
+	mustJSON := func(v interface{}) json.RawMessage {
+		b, err := json.Marshal(v)
+		if err != nil {
+			ev.Fatal("%v", err)
+		}
+		return b
+	}
+	for h := 0; h < n/4; h++ {
+		var ops []HOp
+		encd := false
+		maybeEnc := func() {
+			if rng.Intn(3) > 0 {
+				ops = append(ops, HOp{Op: "enc"})
+				encd = true
+				if rng.Intn(3) == 0 {
+					ops = append(ops, HOp{Op: "adopt"})
+					if rng.Intn(2) == 0 {
+						ops = append(ops, HOp{Op: "enc"})
+					}
+				}
+			}
+		}
+		if h%2 == 0 {
+			subs := []SubS{}
+			for a := rng.Intn(3); a > 0; a-- {
+				sub := SubS{Ins: []InsS{}}
+				sub.Mcc, sub.Mnc = plmn()
+				for b := rng.Intn(3); b > 0; b-- {
+					in := InsS{Upsc: rng.Intn(65536), Parts: []PartS{}}
+					for c := rng.Intn(3); c > 0; c-- {
+						in.Parts = append(in.Parts, PartS{Ty: rng.Intn(256), C: content()})
+					}
+					sub.Ins = append(sub.Ins, in)
+				}
+				subs = append(subs, sub)
+			}
+			val := mustJSON(subs)
+			for g := rng.Intn(4); g > 0; g-- {
+				maybeEnc()
+				lv := rng.Intn(3)
+				if lv == 0 && len(subs) > 0 {
+					si := rng.Intn(len(subs))
+					if k := len(subs[si].Ins); k > 0 {
+						ii := rng.Intn(k)
+						it := PartS{Ty: rng.Intn(256), C: content()}
+						subs[si].Ins[ii].Parts = append(subs[si].Ins[ii].Parts, it)
+						ops = append(ops, HOp{Op: "grow", Level: "part", S: si + 1, I: ii + 1, Item: mustJSON(it)})
+						continue
+					}
+				}
+				if lv <= 1 && len(subs) > 0 {
+					si := rng.Intn(len(subs))
+					it := InsS{Upsc: rng.Intn(65536), Parts: []PartS{}}
+					if rng.Intn(2) == 0 {
+						it.Parts = append(it.Parts, PartS{Ty: rng.Intn(256), C: content()})
+					}
+					subs[si].Ins = append(subs[si].Ins, it)
+					ops = append(ops, HOp{Op: "grow", Level: "ins", S: si + 1, Item: mustJSON(it)})
+					continue
+				}
+				it := SubS{Ins: []InsS{}}
+				it.Mcc, it.Mnc = plmn()
+				subs = append(subs, it)
+				ops = append(ops, HOp{Op: "grow", Level: "sub", Item: mustJSON(it)})
+			}
+			_ = encd
+			ops = append(ops, HOp{Op: "enc"})
+			s.history("list", val, ops)
+		} else {
+			srs := []SubResS{}
+			for a := rng.Intn(3); a > 0; a-- {
+				sr := SubResS{Rs: []ResS{}}
+				sr.Mcc, sr.Mnc = plmn()
+				for b := rng.Intn(3); b > 0; b-- {
+					sr.Rs = append(sr.Rs, ResS{Upsc: rng.Intn(65536), Ord: rng.Intn(65536), Cause: 111})
+				}
+				srs = append(srs, sr)
+			}
+			val := mustJSON(srs)
+			for g := rng.Intn(4); g > 0; g-- {
+				maybeEnc()
+				if rng.Intn(2) == 0 && len(srs) > 0 {
+					si := rng.Intn(len(srs))
+					it := ResS{Upsc: rng.Intn(65536), Ord: rng.Intn(65536), Cause: 111}
+					srs[si].Rs = append(srs[si].Rs, it)
+					ops = append(ops, HOp{Op: "grow", Level: "res", S: si + 1, Item: mustJSON(it)})
+					continue
+				}
+				it := SubResS{Rs: []ResS{}}
+				it.Mcc, it.Mnc = plmn()
+				srs = append(srs, it)
+				ops = append(ops, HOp{Op: "grow", Level: "sres", Item: mustJSON(it)})
+			}
+			ops = append(ops, HOp{Op: "enc"})
+			s.history("result", val, ops)
 		}
 	}
 	// PLMN: random pairs inside and around the domain
